@@ -38,6 +38,7 @@ func c12DryImplied(c *Check, a *Anchors) {
 			c.Fn(fb)
 			vars := map[string]bool{}
 			okShape := true
+			depthLeft := 2
 			var walk func(e ast.Expr)
 			walk = func(e ast.Expr) {
 				switch x := ast.Unparen(e).(type) {
@@ -50,6 +51,15 @@ func c12DryImplied(c *Check, a *Anchors) {
 				case *ast.Ident:
 					if v, ok := info.Uses[x].(*types.Var); ok && v.Pkg() != nil && v.Pkg().Path() == PkgFlags && v.Parent() == v.Pkg().Scope() {
 						vars[v.Name()] = true
+					} else if v, ok := info.Uses[x].(*types.Var); ok && !v.IsField() && depthLeft > 0 {
+						// a local that holds the disjunction (`dry := Dry || Status`)
+						if d := singleDef(info, fb.Root().Body, v); d != nil {
+							depthLeft--
+							walk(d)
+							depthLeft++
+						} else {
+							okShape = false
+						}
 					} else {
 						okShape = false
 					}
